@@ -4,6 +4,7 @@ checkpointed window/reassembly/delivery state), plus the property oracle on the 
 import os, random, multiprocessing, traceback
 import prudp_session as ps
 import c01_slowlink
+import c01_acktimer
 
 LEVEL = "proof"
 
@@ -463,6 +464,10 @@ def work(args):
     if isinstance(seed, str) and seed.startswith("slowlink:"):
         # keep-alive PINGs between the fragments of a message (slow links x small ping_timeout), see c01_slowlink.py
         return c01_slowlink.work(idx, seed, quick, judge, to_lines)
+    if isinstance(seed, str) and seed.startswith("acktimer:"):
+        # an acknowledgement arriving while the retransmission timer of its packet fires (slow socket, round trip just below the
+        # resend timeout), see c01_acktimer.py
+        return c01_acktimer.work(idx, seed, quick, judge)
     if isinstance(seed, str) and seed.startswith("concurrent-senders"):
         try:
             bad = concurrent_senders(int(seed.split(":")[1]))
@@ -522,7 +527,9 @@ def run(ctx):
                 "slow-link family (real code only): uplinks that take time per datagram (blocking socket / serial link of finite bandwidth) x "
                 "ping_timeout of 0.4..4 fragment times x messages of 3..40 fragments x v0/v1/lite x c->s, s->c, both x no faults / within "
                 "budget / hostile, so that keep-alive PINGs are numbered and sent between the fragments of one message; non-trivial there = "
-                "≥1 PING inside a message")
+                "≥1 PING inside a message; ack-timer family (real code only): a socket whose send takes tau and a round trip just below "
+                "resend_timeout, so that the acknowledgement of the SYN (and of data) arrives while the packet's retransmission timer "
+                "fires: tau x delay over the window and controls on either side x v0/v1 x credentials x slow side, judged in the budget regime")
     directed = [(100000 + i, c[0], quick) for i, c in enumerate(directed_cases())]
     directed += [(100100 + i, "concurrent-senders:%d" % i, quick) for i in range(16 if quick else 200)]
     seeds = directed[::-1] + [(i, ctx.rng.getrandbits(48), quick) for i in range(n)]
@@ -531,6 +538,7 @@ def run(ctx):
     nslow = 128 if quick else 1920
     off = ctx.rng.randrange(320)
     seeds += [(200000 + k, "slowlink:%d:%d" % (off + k, ctx.rng.getrandbits(48)), quick) for k in range(nslow)]
+    seeds += [(300000 + k, "acktimer:%d" % k, quick) for k in range(len(c01_acktimer.cases(quick)))]
     with multiprocessing.Pool(min(16, os.cpu_count() or 4)) as pool:
         results = pool.map(work, seeds, chunksize=1 if quick else 4)
     drv = ctx.driver()
